@@ -793,6 +793,8 @@ def time_and_missing(repo, rep):
 
 
 def run(repo, rep, tier):
+    from .round7b import hygiene
+    hygiene(repo, rep, "C11", ('wavespectra.output.', 'wavespectra.core.swan', 'wavespectra.specdataset', 'wavespectra.input.swan', 'wavespectra.input.netcdf', 'wavespectra.input.octopus', 'wavespectra.input.json'), falsy=True)
     rep.rule("R-C11-23", "(shared with C18) no writer reads freq / dir / dd / a statistic through the copies SpecDataset made of the efth accessor's attributes at "
                          "construction: the header / labels written belong to the data written, also after an in-place edit of the dataset")
     from .round7 import writer_snapshot_reads
